@@ -362,6 +362,9 @@ package keeper
 //@        && $arg("ValidateVoteExtensions", 2) == h - 1 && $arg("ValidateVoteExtensions", 3) == val(BridgeInfo).L1ChainId
 //@        && $arg("ValidateVoteExtensions", 4) == decodeExtCommit(extCommitBz)                                                   // C15: signatures_checked_for_l1_chain_id_and_height_minus_one
 //@   ensures err == nil ==> $called("WritePrices") == 1 && $called("GetOracleVotes") == 1 && $arg("GetOracleVotes", 1) == decodeExtCommit(extCommitBz)   // C15: prices_come_from_the_validated_commit
+//@   ensures err == nil ==> $arg("WritePrices", 3)[cpFromString("TIMESTAMP/NANOSECOND")] != None
+//@        && (val($arg("WritePrices", 3)[cpFromString("TIMESTAMP/NANOSECOND")]) != None && val(val($arg("WritePrices", 3)[cpFromString("TIMESTAMP/NANOSECOND")])) >= 0 && val(val($arg("WritePrices", 3)[cpFromString("TIMESTAMP/NANOSECOND")])) < 9223372036854775808
+//@            ==> $arg("WritePrices", 2) == val(val($arg("WritePrices", 3)[cpFromString("TIMESTAMP/NANOSECOND")])))                  // C15: prices_are_stamped_with_the_signed_timestamp_not_the_l2_clock
 //@   ensures err == nil ==> forall cp `S_pkg_types_CurrencyPair` :: oracle.price[cp] != old(oracle.price)[cp] ==>
 //@        oracle.price[cp] != None && (old(oracle.price)[cp] == None || val(oracle.price[cp]).BlockTimestamp > val(old(oracle.price)[cp]).BlockTimestamp)   // C15: accepted_timestamp_strictly_increases_per_pair
 //@   ensures err != nil ==> true
